@@ -12,6 +12,8 @@ Monitors (all on the real library under ASan/UBSan):
            significance 0.05 per (type, regime) must lie in [1 %, 20 %]
            (widened by a 99.999 % binomial interval).
  outlier   one standard displaced by 100 sigma: rejected in >= 90 %.
+ redeclare the last vnacal_new_set_m_error call is the one in force: earlier,
+           different declarations on the same vnacal_new_t change nothing.
  twin      the same straight-line noise law given on the calibration grid and
            on its own 2..4-knot grid (interpolated by the library): the two
            weighted solves of the same noisy data must agree.
@@ -458,6 +460,125 @@ def work_twin(chunk_id, payload):
     return part
 
 
+def work_redeclare(chunk_id, payload):
+    """vnacal_new_set_m_error may be called any number of times; the last
+    declaration is the one in force.  One vnacal_new_t receives 1..3 earlier,
+    different declarations (other sizes, other grids, with / without the
+    signal-proportional part, disabled) and then the final one; its twin
+    receives only the final one.  Same noisy data (drawn for the final law):
+    same verdict, same calibration."""
+    seed, n, binary, workroot = payload
+    rng = np.random.default_rng([seed, chunk_id, 3939])
+    part = dict(evaluations=0, counters={}, maxima={}, distinct=set(),
+                samples=[], violations=[], inconclusive=[], harness_errors=[])
+    cnt = part["counters"]
+    cases, meta = [], {}
+    for k in range(n):
+        ctype = physics.TYPES[(chunk_id + k) % 8]
+        p = int(rng.choice([1, 2, 2]))
+        F = int(rng.choice([1, 3, 4]))
+        sc, kappa = scenario(rng, ctype, p, p, F, leak_samples=3)
+        if sc is None:
+            continue
+        if ctype in ("T16", "U16"):
+            sc.stds = [st for st in sc.stds if st.n == sc.p]
+            if not (sc.well_determined(300.0)[0] and overdetermined(sc)):
+                continue
+        nf = 10 ** rng.uniform(-5, -3.5)
+        final_tr = None if rng.random() < 0.5 else 10 ** rng.uniform(-3.5, -2)
+        for st in sc.stds:
+            st.noise = []
+            for f in range(F):
+                M = sc.enet[f].measure(st.S_full(f, sc.p))
+                sig = np.sqrt(nf ** 2 + (final_tr or 0.0) ** 2 * np.abs(M) ** 2)
+                st.noise.append(sig * (rng.standard_normal(M.shape) + 1j *
+                                       rng.standard_normal(M.shape)) / np.sqrt(2))
+        s = Script()
+        s.op("vc=vnacal_create")
+        s.rvec("freq", sc.freqs)
+        steps, kinds = [], []
+        for j in range(int(rng.integers(1, 4))):
+            kind = str(rng.choice(["single", "two", "full", "off"]))
+            if kind == "off":
+                steps.append("NULL %d NULL NULL" % F)
+            else:
+                tr_ = None if rng.random() < 0.3 else 10 ** rng.uniform(-3, -1)
+                steps.append(noise_grid(s, sc, rng, 10 ** rng.uniform(-6, -2),
+                                        tr_, kind, "e%d" % j))
+                kind += "+tr" if tr_ is not None else ""
+            kinds.append(kind)
+        fkind = str(rng.choice(["single", "two", "full"]))
+        final = noise_grid(s, sc, rng, nf, final_tr, fkind, "fin")
+        uid = [0]
+        La = emit_cal(s, sc, "va", "a", m_error=steps + [final], uid=uid,
+                      tag="1")
+        Lb = emit_cal(s, sc, "vb", "b", m_error=[final], uid=uid, tag="2")
+        duts = sc.rand_dut()
+        s.op("vd=vnadata_alloc")
+        out = {}
+        for nm in ("a", "b"):
+            _, out[nm] = sc.emit_apply(s, duts, nm, form="m", ci="$ci_" + nm,
+                                       tag="q" + nm)
+        cid = "r%d_%d" % (chunk_id, k)
+        cases.append((cid, s.text()))
+        meta[cid] = (sc, kappa, La, Lb, out, dict(
+            earlier=kinds, final=fkind + ("+tr" if final_tr else "")))
+    wd = os.path.join(workroot, "wr%d" % chunk_id)
+    results = R.run_cases(binary, cases, wd, timeout=1800, watchdog=60)
+    for cid, text in cases:
+        res = results[cid]
+        sc, kappa, La, Lb, out, info = meta[cid]
+        v, inc = R.standard_violations(res, text, PROP)
+        part["violations"] += v
+        part["inconclusive"] += inc
+        if res.status != "ok":
+            continue
+
+        def bad(what, desc):
+            part["violations"].append(dict(
+                key="%s:redeclare:%s:%s" % (PROP, what, sc.ctype),
+                desc="%s %dx%d F=%d %s: %s" % (sc.ctype, sc.r, sc.c, sc.F,
+                                               info, desc),
+                script=text))
+        if not all((res.ev(ln) or {}).get("ret") == 0
+                   for L_ in (La, Lb) for ln in L_["add"]):
+            cnt["redeclare_add_refused"] = cnt.get("redeclare_add_refused", 0) + 1
+            continue
+        ea, eb = res.ev(La["solve"]), res.ev(Lb["solve"])
+        if ea is None or eb is None or "ret" not in ea or "ret" not in eb:
+            continue
+        part["evaluations"] += 1
+        cnt["redeclare_pairs"] = cnt.get("redeclare_pairs", 0) + 1
+        part["distinct"].add(("redeclare", sc.ctype, tuple(info["earlier"]),
+                              info["final"]))
+        if ea["ret"] != eb["ret"]:
+            bad("verdict-differs", "declared %s then %s: solve returned %s "
+                "(%s); declared only %s: %s (%s)" % (
+                    info["earlier"], info["final"], ea["ret"], ea.get("errno"),
+                    info["final"], eb["ret"], eb.get("errno")))
+            continue
+        if ea["ret"] != 0:
+            cnt["redeclare_both_rejected"] = cnt.get(
+                "redeclare_both_rejected", 0) + 1
+            continue
+        Sa, Sb = get_S(res, out["a"], sc.p), get_S(res, out["b"], sc.p)
+        if Sa is None or Sb is None:
+            bad("apply-failed", "apply after a weighted solve failed")
+            continue
+        d = max(float(np.max(np.abs(a - b))) if np.all(np.isfinite(a)) and
+                np.all(np.isfinite(b)) else float("inf")
+                for a, b in zip(Sa, Sb))
+        tol = 1e-10 * (1 + kappa)
+        part["maxima"]["redeclare_max_diff_over_tol"] = max(
+            part["maxima"].get("redeclare_max_diff_over_tol", 0.0), d / tol)
+        if not (d <= tol):
+            bad("earlier-declaration-leaks", "an error model declared after "
+                "earlier, different declarations gives a calibration that "
+                "corrects a device differently by %.3g from the one declared "
+                "once (tolerance %.3g)" % (d, tol))
+    return part
+
+
 def binom_interval(p, n, z=4.42):
     """half-width of a ~99.999 % normal-approximation interval"""
     return z * math.sqrt(max(p * (1 - p), 1e-12) / max(n, 1))
@@ -487,6 +608,10 @@ def main():
     n_twin = int((160 if quick else 4000) * chk.args.scale)
     for part in R.pmap(work_twin, [(chk.seed, max(1, n_twin // nch), binary,
                                    chk.workroot) for _ in range(nch)]):
+        chk.merge(part)
+    n_re = int((160 if quick else 4000) * chk.args.scale)
+    for part in R.pmap(work_redeclare, [(chk.seed, max(1, n_re // nch), binary,
+                                        chk.workroot) for _ in range(nch)]):
         chk.merge(part)
     rates = {}
     for k in sorted(chk.counters):
@@ -534,7 +659,10 @@ def main():
              "regime) cell at significance 0.05; outlier: one standard moved "
              "by 100 sigma; twin: F = 3..6, noise law nf(f), tr(f) linear in f "
              "with different slopes, given on the calibration grid and on a "
-             "2..4-knot grid of its own; distinct = distinct (sub-check, type, shape, form, "
+             "2..4-knot grid of its own; redeclare: 1..3 earlier different "
+             "declarations (other sizes / grids / with or without tracking "
+             "part / disabled) before the final one vs the final one alone; "
+             "distinct = distinct (sub-check, type, shape, form, "
              "grid / regime) tuples",
         min_events=50,
         assumptions=["rate clauses are statistical: bounds [alpha/5, 4 alpha] "
